@@ -178,6 +178,12 @@ func (fs *FS) ListDir(dir string) ([]string, error) {
 func (fs *FS) Create(dir, name string, size uint64) (types.WritableFile, error) {
 	fs.W.point("Create " + name)
 	if fs.W.fault("create") {
+		// a failed Create may or may not leave the (empty) file behind: the production
+		// fs.Create does when the file was created and its preallocation then failed
+		if fs.find(name) == nil && vrt.Bool("failed-create-left-file") {
+			fs.files = append(fs.files, &file{name: name, data: []byte{}, exists: true, size: 0})
+			fs.Created = append(fs.Created, name)
+		}
 		return nil, ErrInjected
 	}
 	if fs.find(name) != nil {
@@ -456,6 +462,12 @@ func (m *Meta) Load(dir string) (types.PersistentState, error) {
 	m.W.rpoint("Meta.Load")
 	m.CallLog = append(m.CallLog, "Load")
 	if m.W.fault("meta-load") {
+		// a Load can fail before or AFTER it opened (and locked) the store - the production
+		// store opens its database first and then reads and parses the record: a damaged
+		// record fails the Load with the database open. The caller has to Close either way.
+		if vrt.Bool("load-failed-after-opening") {
+			m.Open = true
+		}
 		return types.PersistentState{}, ErrInjected
 	}
 	m.Open = true
